@@ -306,6 +306,20 @@ def main(ctx):
                     if (pred == 'fatal') != (obs == 'fatal'):
                         ctx.divergence(f'server P1 {point} strict={strict} '
                                        f'{cls}: model {pred}, code {obs}')
+                # a message the table refuses must have NO effect: whatever the
+                # server puts on the wire once it has taken the injected packet
+                # in (DISCONNECT / UNIMPLEMENTED aside) is an answer to it - the
+                # prefix rule above cannot tell an early SERVICE_ACCEPT from
+                # the genuine one of the untampered run
+                late = [x for x in (r.get('after_inj') or ()) if x not in (1, 3)]
+                if pred == 'fatal' and late and \
+                        not (guessed and cls in ('KEXMSG', 'KEXOTHER')):
+                    ctx.violation(dict(sig, clause='AnsweredOutOfPhase'),
+                                  f'server, first key exchange ({point}, '
+                                  f'strict={strict}): {cls}/{vname} (type {t}) '
+                                  f'is refused in phase {mph}, but the server '
+                                  f'answered it with {late} before it gave up',
+                                  replay=rep)
                 if r['loop_exceptions']:
                     ctx.violation(dict(sig, loop=True),
                                   f'server P1 {cls}: exception reached the '
